@@ -53,6 +53,12 @@ Clauses(t) ==
                                        IN t.ret.tsb[n] = t.ret.vo[n] - (IF HasBox(b) THEN b[4] ELSE 0)>>,
      <<"vhea",           "P", Has(t.ret, "vhea") => VheaOK(t.ret.vhea, HgtSeq(t), TsbSeq(t), BoxSeq(t))>>,
      <<"vorg-decodes",   "P", Has(t.ret, "vorg") => \A n \in SetOf(Ord(t)) : VorgDecode(t, n) = t.ret.vo[n]>>,
+     <<"returned-font-fields-equal-saved", "P", (Has(t.ret, "mem") /\ ~Has(t.ret.mem, "err")) =>
+                                 /\ t.ret.mem.os2 = <<t.ret.os2.first, t.ret.os2.last>>
+                                 /\ t.ret.mem.hhea = <<t.ret.hhea.advanceWidthMax, t.ret.hhea.minLeftSideBearing, t.ret.hhea.minRightSideBearing,
+                                                       t.ret.hhea.xMaxExtent, t.ret.hhea.numberOfHMetrics>>
+                                 /\ t.ret.mem.head = <<t.ret.head.xMin, t.ret.head.yMin, t.ret.head.xMax, t.ret.head.yMax>>
+                                 /\ t.ret.mem.numGlyphs = t.ret.maxp.numGlyphs>>,
      <<"os2-char-range", "P", AllCodes(t) # {} =>
                                  /\ t.ret.os2.first = Min({Min(AllCodes(t)), 65535})
                                  /\ t.ret.os2.last = Min({Max(AllCodes(t)), 65535})>>,
